@@ -115,9 +115,39 @@ static void input_compressor_print_available(void)
 	fputc('\n', stdout);
 }
 
+/*
+  Parse the argument of an option that takes a plain number. Same syntax as
+  before (decimal, or hex/octal with the usual C prefix), but the whole
+  argument has to be a number that is not larger than the given maximum.
+  Prints an error message and returns -1 otherwise.
+ */
+static int parse_number_arg(const char *optname, const char *str,
+			    sqfs_u64 max, sqfs_u64 *out)
+{
+	unsigned long long value;
+	char *end;
+
+	if (*str < '0' || *str > '9')
+		goto fail;
+
+	errno = 0;
+	value = strtoull(str, &end, 0);
+
+	if (errno != 0 || *end != '\0' || value > max)
+		goto fail;
+
+	*out = value;
+	return 0;
+fail:
+	fprintf(stderr, "%s: '%s' is not a number between 0 and %llu.\n",
+		optname, str, (unsigned long long)max);
+	return -1;
+}
+
 void process_args(int argc, char **argv)
 {
 	bool have_compressor;
+	sqfs_u64 number;
 	int i, ret;
 
 	sqfs_writer_cfg_init(&cfg);
@@ -172,10 +202,18 @@ void process_args(int argc, char **argv)
 			cfg.comp_id = ret;
 			break;
 		case 'j':
-			cfg.num_jobs = strtol(optarg, NULL, 0);
+			if (parse_number_arg("--num-jobs", optarg, SIZE_MAX,
+					     &number)) {
+				goto fail;
+			}
+			cfg.num_jobs = number;
 			break;
 		case 'Q':
-			cfg.max_backlog = strtol(optarg, NULL, 0);
+			if (parse_number_arg("--queue-backlog", optarg, SIZE_MAX,
+					     &number)) {
+				goto fail;
+			}
+			cfg.max_backlog = number;
 			break;
 		case 'X':
 			cfg.comp_extra = optarg;
